@@ -40,21 +40,35 @@ class ComputeInfo(Target):
     trusted = ["md5 of a file is a function of its contents", "FlowIR.discover_reference_strings finds the reference spellings "
                "present in the arguments", "producers' hashes (recursion over an acyclic graph)",
                "os.path.exists/isdir/isfile, DataReference.location"]
-    assumptions = ["one reference (to a producer's file, or a direct file), mentioned in the arguments in either spelling or not "
-                   "at all; backend local / kubernetes / lsf"]
+    assumptions = ["one reference (to a producer's file, to a direct file, or to a producer's whole working directory -- with or "
+                   "without a hash of that producer), mentioned in the arguments in either spelling or not at all; backend "
+                   "local / kubernetes / lsf"]
 
     def setup(self, c):
         fuzzy = c.one_of('fuzzy', [False, True])
-        produced = c.one_of('file_produced_by_a_component', [True, False])
-        state = c.one_of('input', ['file', 'missing', 'directory'])
+        whole_dir = c.one_of('reference_to', ['a-file', 'the-producers-working-directory']) == 'the-producers-working-directory'
+        if whole_dir:
+            # stage7.PRODUCERNAME:ref -- the consumer reads the producer's directory; what identifies that input is the
+            # PRODUCER'S OWN hash, which may not exist (yet): then the consumer must not get a hash either
+            produced, state = True, 'directory'
+            method = c.one_of('method', ['ref', 'copy'])
+            prod_hash = c.one_of('producer_has_a_hash', [True, False])
+        else:
+            produced = c.one_of('file_produced_by_a_component', [True, False])
+            state = c.one_of('input', ['file', 'missing', 'directory'])
+            method = c.one_of('method', ['ref', 'copy', 'output'])
+            prod_hash = True
         mention = c.one_of('mentioned_as', ['absolute', 'relative', 'not-mentioned'])
-        method = c.one_of('method', ['ref', 'copy', 'output'])
         backend = c.one_of('backend', ['local', 'kubernetes', 'lsf'])
         custom_js = None
         prod_id = 'stage7.PRODUCERNAME' if produced else 'direct-DIR'
-        abs_ref = '%s/out.txt:%s' % (prod_id, method)
-        rel_ref = ('PRODUCERNAME/out.txt:%s' % method) if produced else abs_ref
-        location = '/INSTANCE-PATH/stages/stage7/PRODUCERNAME/out.txt' if produced else '/INSTANCE-PATH/direct-DIR/out.txt'
+        if whole_dir:
+            abs_ref, rel_ref = '%s:%s' % (prod_id, method), 'PRODUCERNAME:%s' % method
+            location = '/INSTANCE-PATH/stages/stage7/PRODUCERNAME'
+        else:
+            abs_ref = '%s/out.txt:%s' % (prod_id, method)
+            rel_ref = ('PRODUCERNAME/out.txt:%s' % method) if produced else abs_ref
+            location = '/INSTANCE-PATH/stages/stage7/PRODUCERNAME/out.txt' if produced else '/INSTANCE-PATH/direct-DIR/out.txt'
         loc_fail = c.one_of('location()', ['ok', 'raises'])
 
         def loc(c, graph):
@@ -62,9 +76,10 @@ class ComputeInfo(Target):
                 c.raise_(errors.DataReferenceFilesDoNotExistError, [])
             return location
         d = Obj('dataref', stringRepresentation=abs_ref, absoluteReference=abs_ref, relativeReference=rel_ref, method=method,
-                fileRef='out.txt', producerIdentifier=Obj('pid', identifier=prod_id),
+                fileRef=None if whole_dir else 'out.txt', producerIdentifier=Obj('pid', identifier=prod_id),
                 location=Extern('DataReference.location', loc))
-        prod_spec = Obj('producer-spec', memoization_hash='PRODHASH-STRONG', memoization_hash_fuzzy='PRODHASH-FUZZY',
+        prod_spec = Obj('producer-spec', memoization_hash='PRODHASH-STRONG' if prod_hash else None,
+                        memoization_hash_fuzzy='PRODHASH-FUZZY' if prod_hash else None,
                         identification=Obj('cid', identifier=prod_id))
         nodes = {prod_id: {'componentSpecification': prod_spec}} if produced else {}
         graph = Obj('nx', nodes=nodes)
@@ -82,7 +97,8 @@ class ComputeInfo(Target):
                    producers={prod_id: prod_spec} if produced else {}, commandDetails={'arguments': args},
                    resourceManager=rm)
         return State(args=[this], kwargs={'fuzzy': fuzzy}, fuzzy=fuzzy, produced=produced, state=state, mention=mention,
-                     method=method, backend=backend, loc_fail=loc_fail, abs_ref=abs_ref, rel_ref=rel_ref, location=location)
+                     method=method, backend=backend, loc_fail=loc_fail, abs_ref=abs_ref, rel_ref=rel_ref, location=location,
+                     whole_dir=whole_dir, prod_hash=prod_hash)
 
     def externs(self, c, st):
         def discover(c, arguments, stage, comp_ids, out_map):
@@ -111,11 +127,14 @@ class ComputeInfo(Target):
             return Target.run_native(self, ctx, st)
 
     def ensures(self, c, st, out):
+        # a producer without a hash is a missing input of everything that reads its directory: no record (None or an error)
+        unhashable_producer = st.whole_dir and not st.prod_hash and st.mention != 'not-mentioned'
         if out.kind == 'raise':
-            return [('no-exception', False)]
+            return [('no-exception', unhashable_producer)]
         r = out.value
         missing = st.loc_fail == 'raises' or (st.state == 'missing' and ((not st.fuzzy) or (not st.produced)))
-        cl = [('no-hash-while-an-input-is-missing', (r is None) if missing else True)]
+        cl = [('no-hash-while-an-input-is-missing', (r is None) if missing else True),
+              ('no-hash-while-a-producer-has-no-hash', (r is None) if unhashable_producer else True)]
         if r is None:
             return cl
         flat = flatten(r)
@@ -125,6 +144,10 @@ class ComputeInfo(Target):
         cl.append(('executable-is-the-unresolved-one', r['command']['executable'] == 'bin/EXECUTABLE'))
         img = {'local': {}, 'kubernetes': {'image': 'IMAGE:k8s'}, 'lsf': {'image': 'IMAGE:lsf'}}[st.backend]
         cl.append(('image-is-part-of-the-record', r['backend'] == img))
+        if st.whole_dir and st.prod_hash and st.mention != 'not-mentioned' and st.loc_fail == 'ok':
+            tok = '%s:%s:%s' % ('fuzzy' if st.fuzzy else 'producer', 'PRODHASH-FUZZY' if st.fuzzy else 'PRODHASH-STRONG', st.method)
+            cl.append(('a-directory-reference-is-replaced-by-the-producers-hash', r['command']['arguments'] == 'run --in %s --flag' % tok))
+            cl.append(('a-directory-reference-adds-no-file-entry', r['files'] == []))
         if st.state == 'file':
             if not st.fuzzy:
                 want_files = ['%s:%s' % (md5, st.method)]
